@@ -668,6 +668,51 @@ theorem darcy_flux_divergence_free (T : Topo) (nx ny nz : Nat → Rat) (bx by' b
 
 theorem faceAperture_none (T : Topo) (f : Nat) : faceAperture T none f = 1 := rfl
 
+/-! ### the legacy entry point `assemble_matrix_rhs` -/
+
+/-- `assemble_matrix_rhs` (one component) returns `A = div · diag(flux) · upwind` and
+    `rhs = div · (bound_transport_neu + bound_transport_dir · diag(flux)) · bc_values`; in the code's sign
+    convention `A c + rhs` is the divergence of the composed face flux, so a transport loop that discretizes
+    once and re-assembles in every step (`c − dt/V (A c + rhs)`) performs exactly `step` — every theorem about
+    `step` (conservation, maximum principle) is a theorem about that loop. -/
+theorem assemble_matvec (P : Pb) (c bv : Nat → Rat) (nc k : Nat)
+    (hcol : ∀ f j, upCol P f = some j → j < nc) :
+    sumTo nc (fun j => entryOf (assembleTrip P P.T) k j * c j) + assembleRhs P bv k
+      = divAt P.T (faceFlux P c bv) k := by
+  have key : ∀ T' : Topo, sumTo nc (fun j => entryOf (assembleTrip P T') k j * c j)
+      = sumOver T' (fun i => if i.cell = k then i.sgn * (P.q i.face * upVal P c i.face) else 0) := by
+    intro T'
+    induction T' with
+    | nil => exact sumTo_eq_zero _ _ (fun j _ => by simp [assembleTrip, entryOf_nil])
+    | cons i T' ih =>
+      rw [sumOver_cons, ← ih]
+      cases hu : upCol P i.face with
+      | none =>
+        have e0 : assembleTrip P (i :: T') = assembleTrip P T' := by simp [assembleTrip, hu]
+        rw [e0]; unfold upVal; rw [hu]; simp
+      | some a =>
+        have e0 : assembleTrip P (i :: T') = (i.cell, a, i.sgn * P.q i.face) :: assembleTrip P T' := by
+          simp [assembleTrip, hu]
+        rw [e0]
+        have e2 : ∀ j, entryOf ((i.cell, a, i.sgn * P.q i.face) :: assembleTrip P T') k j * c j
+            = (if a = j then (if i.cell = k then i.sgn * (P.q i.face * c j) else 0) else 0)
+              + entryOf (assembleTrip P T') k j * c j := by
+          intro j
+          rw [entryOf_cons]
+          by_cases h1 : i.cell = k <;> by_cases h2 : a = j <;> simp [h1, h2] <;> ring
+        rw [sumTo_congr nc _ _ (fun j _ => e2 j), sumTo_add,
+          sumTo_ite_eq a nc (fun j => if i.cell = k then i.sgn * (P.q i.face * c j) else 0), if_pos (hcol _ _ hu)]
+        unfold upVal; rw [hu]
+  rw [key P.T]
+  unfold assembleRhs divAt
+  rw [← sumOver_add]
+  apply sumOver_congr
+  intro i _
+  unfold faceFlux
+  by_cases h : i.cell = k
+  · simp only [if_pos h]; ring
+  · simp [h]
+
 /-! ### non-vacuity: concrete data
 
 `T3` = `CartGrid(3)` in 1-d (faces 0..3, cells 0..2, normals pointing right): the stored entries of
@@ -792,6 +837,10 @@ example : sumTo 3 (fun i => 1 * mdStep Mex (1 / 4) (fun _ => 1) (fun _ => 0) cMd
 
 example : traceVal Tmd cMd 1 = cMd 0 :=
   traceVal_fracture_face Tmd (by decide +kernel) cMd ⟨1, 0, 1⟩ (by decide +kernel) (by decide +kernel) (by decide +kernel)
+
+-- `assemble_matvec` on the through-flow example: A c + rhs = div(face flux) in every cell
+example : ∀ k, k < 3 → sumTo 3 (fun j => entryOf (assembleTrip Pthru Pthru.T) k j * cThru j) + assembleRhs Pthru (fun _ => 4) k
+    = divAt Pthru.T (faceFlux Pthru cThru (fun _ => 4)) k := by decide +kernel
 
 /-! the checkers answer `true` on the concrete data above, and `false` when a hypothesis fails -/
 example : consHypB Pneu 4 3 (fun i => (i + 1 : Rat)) (fun _ => 0) = true := by decide +kernel
